@@ -128,9 +128,37 @@ def run(ctx):
                '' if ok else '%s reads an attribute value with `%s`, which does not set the read bit: the program has seen the value, yet a later refresh of the row overwrites it '
                'silently instead of raising UnrepeatableReadError' % (qual, norm(silent[0]) if silent else 'no attr.__get__(obj)'), node=silent[0] if silent else None,
                expected='attr.__get__(obj)')
+    # a one-to-one link whose column is on the other side: reading it through the column-less attribute is an observation of the partner's
+    # column.  Scenario "attr has a reverse, no columns of its own, the value is an object that exists in the database": every return of the
+    # value passes a statement that adds a bit to <value>._rbits_ (sibling of what Set.copy does for the items of a collection)
+    ag = repo.fn(CORE, 'Attribute.__get__'); g = cg.cfg(ag); arecv = ag.recv
+    def o2o_atom(text, node):
+        if isinstance(node, ast.Attribute) and dotted(node.value) == arecv and node.attr == 'columns': return False
+        if isinstance(node, ast.Attribute) and dotted(node.value) == arecv and node.attr == 'reverse': return True
+        if isinstance(node, ast.Attribute) and dotted(node.value) == arecv and node.attr == 'is_collection': return False
+        if text.startswith(arecv + '.pk_offset is'): return text.endswith(' is None')              # not a primary key attribute
+        if text.endswith(' is None'): return False                                                  # the objects exist, their write bits too
+        if text.endswith(' is not None'): return True
+        if isinstance(node, ast.BinOp) and isinstance(node.op, ast.BitAnd): return False        # nothing written yet
+        return None
+    eo = scenario_edges(g, ag.node, o2o_atom, resolve=False)
+    vrets = [x for x in g.nodes if x.kind == 'stmt' and isinstance(x.ast, ast.Return) and isinstance(x.ast.value, ast.Name)]
+    ctx.need(vrets, 'C21: Attribute.__get__ no longer returns a local value')
+    live = g.reach([g.entry], edge_ok=eo)
+    vrets = [r for r in vrets if r.id in live]
+    ctx.need(vrets, 'C21: no return of Attribute.__get__ is reachable for a column-less one-to-one attribute')
+    for r in vrets:
+        vname = r.ast.value.id
+        marks = [x for x in g.nodes if x.kind == 'stmt' and isinstance(x.ast, ast.AugAssign) and isinstance(x.ast.op, ast.BitOr) and isinstance(x.ast.target, ast.Attribute)
+                 and x.ast.target.attr == '_rbits_' and dotted(x.ast.target.value) == vname]
+        ok = bool(marks) and r.id not in g.reach([g.entry], avoid=marks, edge_ok=eo) and r.id in g.reach([g.entry], edge_ok=eo)
+        ctx.ob('C21-OBSERVE.one-to-one-read-recorded-on-the-storing-side', ag, r.ast, ok,
+               '' if ok else 'Attribute.__get__ returns the partner of a one-to-one link stored in the partner\'s column without recording the read on the partner '
+               '(the attribute has no column, so its own read bit is 0): after another transaction moves the partner, a reload changes the value silently', node=r.ast)
 
 
 MUTANTS = [
+    dict(id='C21-o2o', file='pony/orm/core.py', fn='Attribute.__get__', old="            if wbits is not None and not wbits & bit: value._rbits_ |= bit", new="            if wbits is not None and not wbits & bit: obj._rbits_ |= bit", expect='C21-OBSERVE.one-to-one'),
     dict(id='C21-s1', file='pony/orm/core.py', fn='Entity.to_dict', old="            value = attr.__get__(obj)\n", new="            value = attr.get(obj) if not attr.is_collection else attr.__get__(obj)\n", expect='C21-SERIAL'),
     dict(id='C21-m1', file='pony/orm/core.py', fn='Set.copy', old='        if setdata is None or not setdata.is_fully_loaded: setdata = attr.load(obj)\n',
          new='        if setdata is not None and setdata.is_fully_loaded: return set(setdata)\n        setdata = attr.load(obj)\n', expect='C21-OBSERVE'),
